@@ -17,6 +17,7 @@ def install_la():
 class C04(Check):
     pid = 'C04'
     validate = True
+    fork_logging = True       # DEBUG logging on/off is a symbolic input of every path
     anchors = [('src/fast_ticc/front_end.py', 'ticc_labels'), ('src/fast_ticc/front_end.py', 'ticc_joint_labels'),
                ('src/fast_ticc/front_end.py', '_split_combined_result'),
                ('src/fast_ticc/data_preparation.py', 'pad_missing_labels'),
